@@ -3,7 +3,7 @@
 # scratch worktree of /repo HEAD + patch, scratch copy of /verif (with its build cache), PEVAL_REPO override.
 prop=$1; v=$2; shift 2
 out=/tmp/s/${prop}_out; [ -f /verif/seeded/${prop}_$v/patch.diff ] && pf=/verif/seeded/${prop}_$v/patch.diff || pf=$out/patch_$v.diff
-wt=/tmp/v/run_${prop}_$v; vc=/tmp/vm/${prop}_$v
+wt=/tmp/v/run_${prop}_${v}_$$; vc=/tmp/vm/${prop}_${v}_$$
 rm -rf $wt $vc; mkdir -p /tmp/v /tmp/vm
 git -C /repo worktree add -q --detach $wt HEAD || exit 2
 git -C $wt apply $pf || { echo "patch does not apply"; exit 2; }
